@@ -589,6 +589,73 @@ def d8_only_null_is_skipped(chk: Check) -> None:
         raise AnalysisError("early returns of merge_with not found")
 
 
+def d10_end_of_stream_is_not_a_document(chk: Check) -> None:
+    """An empty document of a stream (`---` followed by `---`, or a
+    trailing `---`) is loaded as None and counts as a document.  The end of
+    the stream is therefore recognised by StopIteration only.  `next(it,
+    None)` followed by "is it None?" takes the first empty document for the
+    end: it and everything after it is dropped without a word, and the
+    modes pair, multiply or fold fewer documents than the stream holds."""
+    prog = chk.prog
+    chk.rule("C18-D10", "the document iterator of the loaders is advanced "
+             "with next(it) (StopIteration), never with a default that a "
+             "document could equal", floor=1)
+    n = 0
+    for fi in prog.funcs_in("yamlpath/common/parsers.py"):
+        for c in walk_local(fi.node):
+            if not (isinstance(c, ast.Call) and src(c.func) == "next"):
+                continue
+            n += 1
+            text = "{}: {}".format(fi.short, src(c)[:50])
+            if len(c.args) == 1:
+                chk.ok("C18-D10", fi, c, text, "ends by StopIteration")
+            else:
+                d = c.args[1]
+                sentinel = isinstance(d, ast.Name) and any(
+                    isinstance(a, ast.Assign) and
+                    src(a.targets[0]) == d.id and
+                    src(a.value) == "object()"
+                    for a in ast.walk(fi.module.tree))
+                if sentinel:
+                    chk.ok("C18-D10", fi, c, text, "unique sentinel")
+                else:
+                    chk.fail("C18-D10", fi, c, text,
+                             "the default `{}` is a value a document can "
+                             "have (an empty document loads as None): the "
+                             "stream is cut at its first empty document"
+                             .format(src(d)))
+    if n < 1:
+        raise AnalysisError("next() calls in the loaders: {}".format(n))
+
+
+def d11_first_document_decides_the_format(chk: Check) -> None:
+    """With automatic output format the *first* result document decides
+    whether the stream is written as YAML or as JSON lines.  Taking the
+    verdict of whichever document the preparing loop saw last makes the
+    form of the output depend on the tail of the stream: a trailing empty
+    or flow-style document turns a block-style stream into JSON lines and
+    drops what JSON cannot carry."""
+    prog = chk.prog
+    chk.rule("C18-D11", "write_output_document takes the JSON / YAML "
+             "decision from docs[0].prepare_for_dump(...)", floor=1)
+    fi = prog.func("yaml_merge.write_output_document")
+    docs = fi.params()[3]
+    decisions = [a for a in walk_local(fi.node) if isinstance(a, ast.Assign)
+                 and "OutputDocTypes.JSON" in src(a.value)]
+    if not decisions:
+        raise AnalysisError("format decision of write_output_document not "
+                            "found")
+    for a in decisions:
+        text = "write_output_document: {}".format(src(a)[:60])
+        if "{}[0].prepare_for_dump".format(docs) in src(a.value):
+            chk.ok("C18-D11", fi, a, text, "the first document")
+        else:
+            chk.fail("C18-D11", fi, a, text,
+                     "the decision is not taken from the first document "
+                     "(a name assigned in the preparing loop holds the "
+                     "last document's verdict)")
+
+
 def run(chk: Check) -> None:
     d1_routing(chk)
     d2_condense(chk)
@@ -599,6 +666,8 @@ def run(chk: Check) -> None:
     d6_lone_stream(chk)
     d7_documents_as_loaded(chk)
     d8_only_null_is_skipped(chk)
+    d10_end_of_stream_is_not_a_document(chk)
+    d11_first_document_decides_the_format(chk)
     # a Merger folds many right-hand documents into one left document:
     # conflict detection must look at the accumulated document each time
     from rules.c10 import d4_fresh_tables
